@@ -160,6 +160,7 @@ def check_mapping(s3, pairs2d, find_gaps, via_adapter, info):
 
     # distinct input pairs by class, canonical residue pairs
     distinct = {}
+    variants = {}  # (class, i, j) -> the Saenger values the pair is listed with (several: listed by two tools)
     canon_partners = {}
     for bp in pairs2d:
         a, b = resolve(bp.nt1), resolve(bp.nt2)
@@ -171,6 +172,7 @@ def check_mapping(s3, pairs2d, find_gaps, via_adapter, info):
         if i > j:
             i, j, lw = j, i, lw[0] + lw[2] + lw[1]
         distinct.setdefault(klass(lw), set()).add((i, j, lw))
+        variants.setdefault((klass(lw), i, j), set()).add((lw, bp.saenger.value if bp.saenger is not None else None))
         if bp.saenger is not None:
             canonical = bp.saenger.value in CANON_SAENGER
         else:
@@ -310,6 +312,9 @@ def check_mapping(s3, pairs2d, find_gaps, via_adapter, info):
         for lw in set(distinct) | set(encoded):
             want = Counter((i, j) for i, j, _ in distinct.get(lw, set()))
             got = encoded.get(lw, Counter())
+            # a pair listed with and without a Saenger class (two listings that are neither exact nor reversed
+            # duplicates of each other) may count as one input pair or as two: both readings of "distinct" are accepted
+            got = Counter({k: (want[k] if want.get(k, 0) <= v <= len(variants.get((lw, k[0], k[1]), ())) else v) for k, v in got.items()})
             if want != got:
                 lost = sorted((want - got).elements())[:3]
                 extra = sorted((got - want).elements())[:3]
@@ -439,7 +444,7 @@ def pairs_for_case(case, info=None):
         if len(nts) < 2:
             info["skipped"] = True
             return None, None
-        entries = []
+        entries, late = [], []
         for e in case["entries"]:
             others = [k for k, r in enumerate(s3.residues) if not r.is_nucleotide]
 
@@ -460,11 +465,20 @@ def pairs_for_case(case, info=None):
             entries.append({"r1": r1, "r2": r2, "lw": e["lw"], "saenger": case.get("saenger", False)})
             if case.get("naming"):
                 entries[-1]["naming"] = case["naming"][len(entries) % len(case["naming"])]
+            if e.get("dup") in ("saenger-twin", "saenger-twin-last"):
+                # the pair listed a second time by another tool: same residues and class, Saenger class given by one
+                # listing and not by the other (lists merged from two annotators); next to the first copy or at the end
+                twin = dict(entries[-1], saenger=not entries[-1]["saenger"])
+                if e["dup"] == "saenger-twin":
+                    entries.append(twin)
+                else:
+                    late.append(twin)
             if e.get("dup") == "exact":
                 entries.append(dict(entries[-1]))
             elif e.get("dup") == "reverse":
                 lw = e["lw"]
                 entries.append({"r1": r2, "r2": r1, "lw": lw[0] + lw[2] + lw[1], "saenger": case.get("saenger", False), "naming": entries[-1].get("naming")})
+        entries += late
         pairs2d = build_pairs(s3, entries)
     return s3, pairs2d
 
@@ -515,11 +529,11 @@ def st_cases(files):
             klass = draw(lw)
             for _ in range(draw(st.integers(2, 5))):
                 entries.append({"r1": h, "r2": draw(st.integers(0, 400)), "lw": klass if draw(st.integers(0, 3)) else draw(lw),
-                                "dup": draw(st.sampled_from([None, None, "exact", "reverse"]))})
+                                "dup": draw(st.sampled_from([None, None, "exact", "reverse", "saenger-twin", "saenger-twin-last"]))})
         for _ in range(draw(st.integers(0, 12))):
             r1 = draw(st.one_of(st.integers(0, 400), st.tuples(st.just("absent"), st.integers(0, 5)).map(list))) if draw(st.integers(0, 7)) == 0 else draw(st.integers(0, 400))
             entries.append({"r1": r1, "r2": draw(st.integers(0, 400)), "lw": draw(lw),
-                            "dup": draw(st.sampled_from([None, None, None, "exact", "reverse"]))})
+                            "dup": draw(st.sampled_from([None, None, None, "exact", "reverse", "saenger-twin-last"]))})
         order = draw(st.permutations(list(range(len(entries))))) if entries else []
         case = {"file": fn, "entries": [entries[k] for k in order], "find_gaps": draw(st.booleans()), "via_adapter": draw(st.booleans()),
                 "saenger": draw(st.booleans())}
